@@ -9,6 +9,12 @@ CHECKS={
  'C12':('runtime monitoring: diff.Compare executed in child processes over identity variants and pair workloads, panic/crash/watchdog monitor, identity oracle',
         'held on the executions observed: every reference-valid repository fixture and hand-written hostile spec compared with itself and with JSON / YAML / list-shuffled re-serialisations (0 differences, exit 0 required), and several thousand (A,B) pairs for totality (no panic, no fatal error, no watchdog expiry). Exploration, not proof: shapes the corpus does not contain are not covered.',
         'trusts go-openapi/validate v0.24.0 for spec validity and go-openapi/loads for re-serialisation equality; watchdog expiry is inconclusive','C12'),
+ 'C14':('runtime monitoring: diff.Compare executed in both directions in child processes; offline mirror-relation checker over the two recorded reports plus an absolute-direction oracle on single-cause edits',
+        'held on the executions observed: for every pair the multiset of (location, change code) of diff(A,B) must be the mirror image of diff(B,A) (Added<->Deleted, Widened<->Narrowed, OptionalToRequired<->RequiredToOptional), and on catalogue edits whose cause is known the code must have the right absolute direction. Asymmetries that exist today are listed in known-findings.json by signature.',
+        'mirror map in rig/difflib/mirror.go (DESIGN appendix B); documents with circular $refs are excluded because the report itself is not deterministic on them (C07 finding)','C14'),
+ 'C15':('runtime monitoring: the real swagger binary run with -f json / txt / -b / -i / -d on generated pairs; report-coherence monitor over outputs and exit statuses',
+        'held on the executions observed: ignore-all gives an empty report and exit 0, ignore-subset (every singleton, seeded halves) removes exactly the listed entries, exit status non-zero iff a non-ignored Breaking entry remains (per format), text / JSON / breaking-only reports describe the same multiset of entries.',
+        'entries identified by their full JSON form (the tool\'s Matches relation); text lines rendered with the tool\'s own String(); pairs whose report content varies between two runs are left to C07','C15'),
  'C13':('runtime monitoring: swagger diff run on a catalogue of single spec edits, each with a witness request decided by a reference binder (accept before / reject after)',
         'held on the executions observed: every (edit kind x position) atom with a verified witness, plus seeded noisy composites, must yield >=1 Breaking entry and a non-zero exit. Atoms that genuinely fail today are listed in known-findings.json; any other failing atom is a violation.',
         'trusts the reference binder (rig/oracle/refbind.go) and go-openapi/validate for request validity; exit status from the text-format run','C13'),
